@@ -1,5 +1,5 @@
 (* C20 — run-time support of the translated loop kernels (/verif/translate/py2gallina_c20.py). Definitions only. *)
-From Coq Require Import ZArith Bool List.
+From Coq Require Import ZArith QArith Qround Bool List.
 Require Import QV.common.Ctl.
 Import ListNotations.
 Open Scope Z_scope.
@@ -24,3 +24,15 @@ Definition zget (l : list Z) (i : Z) : option Z :=
   if (0 <=? i) && (i <? Z.of_nat (length l)) then nth_error l (Z.to_nat i) else None.
 Definition zset (l : list Z) (i v : Z) : option (list Z) :=
   if (0 <=? i) && (i <? Z.of_nat (length l)) then Some (firstn (Z.to_nat i) l ++ v :: skipn (S (Z.to_nat i)) l) else None.
+
+(* the statements after a `for` loop, as a continuation on the loop's final state *)
+Definition for_then {R S S' : Type} (c : ctl R S) (k : S -> ctl R S') : ctl R S' :=
+  match c with Next st => k st | Ret r => Ret r | Fail => Fail | OutOfFuel => OutOfFuel end.
+
+(* read access to an array of (exact) real numbers *)
+Definition qget (l : list Q) (i : Z) : option Q :=
+  if (0 <=? i) && (i <? Z.of_nat (length l)) then nth_error l (Z.to_nat i) else None.
+
+(* np.uint16(x) / np.uint64(x) / int(x) of a floating point number: truncation towards zero (the C cast; wrap-around /
+   undefined behaviour outside the target range is NOT modelled) *)
+Definition py_trunc (q : Q) : Z := if Qle_bool 0 q then Qfloor q else Qceiling q.
